@@ -51,12 +51,11 @@ def range_invariant(ctx, prog, rule):
         t = f.blocks[bi]["term"]
         if t["k"] != "switch":
             continue
-        dl = op_place(t["discr"])
-        d = strip(R.place(dl)) if dl else None
-        if d and d[0] == "binop" and d[1] in ("Lt", "Gt", "Le", "Ge"):
+        ot = order_test(f, R, bi)
+        if ot is not None:
+            d = ("binop", ot[1], ot[0], ot[2])
             a, b = strip(d[2]), strip(d[3])
-            e = switch_edges(f, bi)
-            tr, fa = e["otherwise"], e.get("0")
+            tr, fa = ot[3], ot[4]
             # good edge = the one on which min <= max is known (comparison false on NaN is fine: NaN excluded above)
             good = None
             if d[1] == "Lt" and a == ("param", 2) and b == ("param", 1):      # max < min  -> bad when true
